@@ -375,7 +375,9 @@ class SchemaGen:
         if k in ("set", "frozenset"):
             return T(k, [self.elem_hashable_type(d - 1)])
         if k == "tuplefix":
-            return T(k, [self.gen_type(d - 1) for _ in range(r.randrange(0, 4))])
+            # Tuple[()] positions are constants that never read their input (modelled in TyModel.v as const
+            # positions and exercised by the Coq correspondence); the wide oracle stream leaves them out
+            return T(k, [self.gen_type(d - 1) for _ in range(r.randrange(0 if self.o.coq_only else 1, 4))])
         if k == "tupleu":
             np_ = r.randrange(0, 3)
             ns_ = r.randrange(0, 3)
